@@ -92,6 +92,10 @@ class RunTaskExecutable(Operation):
             }
             if slot is not None:
                 env_vars[SLOT_ENV_VARIABLE_NAME] = str(slot)
+            else:
+                # `cond run` may itself run inside a parallel Conductor task; the
+                # slot of that enclosing task must not leak into this task.
+                env_vars.pop(SLOT_ENV_VARIABLE_NAME, None)
 
             if self._record_output:
                 if slot is None:
